@@ -1,4 +1,5 @@
 import XetModel.Uploads
+import XetModel.UploadBytes
 import Driver.Util
 /-!
 Driver handler for the upload-task bookkeeping model (C16).  Command prefix `up.`.
@@ -18,6 +19,11 @@ Event tokens:
 
 * `up.obs ev=<…>` → `final=<none|ok|err> apiErrors=<n> shards=<0|1> tasks=<…>`: the same replay, projected to what
   a client-side observer sees (no latch; per task only `r` not finished, `o` finished ok, `f` finished failed).
+
+* `up.bytes ev=<…>` → `final=<none|ok|err> xorb=<n|none> shard=<n|none>`: replay through the byte-accounting layer
+  `Xet.UploadBytes.runB false` (C14, upload-byte clause).  Event tokens: `r<1|0>:<sz>` (register; `sz` = byte count the put
+  returns on success), `c<i>:<1|0>`, `f<1|0>:<lastSz>:<o>:<shards>` with `<shards>` = `-` or `/`-separated `<len>.<1|0>`
+  (shard length, accepted by the store?) in upload order.
 -/
 namespace Xet.Drv
 open Xet.Uploads
@@ -83,8 +89,64 @@ def upShowObs (s : S) : String :=
   let tasks := if s.finalized == some true then String.ofList (s.tasks.map upObsChar) else "*"
   s!"final={fin} apiErrors={s.apiErrors} shards={b s.shardUploadsStarted} tasks={tasks}"
 
+def parseShards (s : String) : Option (List (Nat × Bool)) :=
+  if s == "-" then some []
+  else (s.splitOn "/").mapM fun t =>
+    match t.splitOn "." with
+    | [l, ok] =>
+      match l.toNat?, upBit ok with
+      | some l, some ok => some (l, ok)
+      | _, _ => none
+    | _ => none
+
+def parseUpEvB (tok : String) : Option Xet.UploadBytes.EvB :=
+  match tok.toList with
+  | [] => none
+  | kind :: restChars =>
+    let body := String.ofList restChars
+    if kind == 'r' then
+      match body.splitOn ":" with
+      | [ne, sz] =>
+        match upBit ne, sz.toNat? with
+        | some ne, some sz => some (.register ne sz)
+        | _, _ => none
+      | _ => none
+    else if kind == 'c' then
+      match body.splitOn ":" with
+      | [i, ok] =>
+        match i.toNat?, upBit ok with
+        | some i, some ok => some (.complete i ok)
+        | _, _ => none
+      | _ => none
+    else if kind == 'f' then
+      match body.splitOn ":" with
+      | [ne, lsz, outs, sh] =>
+        match upBit ne, lsz.toNat?, upBits outs, parseShards sh with
+        | some ne, some lsz, some outs, some sh => some (.finalize ne lsz outs sh)
+        | _, _, _, _ => none
+      | _ => none
+    else none
+
+def upShowBytes (b : Xet.UploadBytes.SB) : String :=
+  let fin := match b.s.finalized with
+    | none => "none"
+    | some true => "ok"
+    | some false => "err"
+  let o (x : Option Nat) : String := match x with
+    | none => "none"
+    | some n => toString n
+  s!"final={fin} xorb={o b.reportedXorb} shard={o b.reportedShard}"
+
 def handleUploads (_blob : Blob) (cmd : String) (toks : List String) : String :=
-  if cmd == "up.trace" || cmd == "up.obs" then
+  if cmd == "up.bytes" then
+    match kv toks "ev" with
+    | none => "bad-op"
+    | some evs =>
+      let evToks := if evs.isEmpty then [] else evs.splitOn ","
+      match evToks.mapM parseUpEvB with
+      | none => "bad-op"
+      | some es => upShowBytes (Xet.UploadBytes.runB false Xet.UploadBytes.SB.init es)
+  else if cmd == "up.trace" || cmd == "up.obs" then
     match kv toks "ev" with
     | none => "bad-op"
     | some evs =>
